@@ -11,7 +11,13 @@
 //!   c12 --verify <archive> --scenario <name>            exit 0 iff the archive opens and every expected file reads back; exit 3 otherwise
 //!   c12 --describe --scenario <name>                    print the scenario's configuration and file set as JSON
 //!
-//! scenario := build-v<1..4>-<absent|present>-<small|big> | compact-v<1|4>
+//!   c12 --make-aux --scenario <name> --aux <dir>         set-up step: files the operation READS (source files on disk, an external
+//!                                                       listfile, the source archive of a rebuild); operation runs get the same --aux <dir>
+//!
+//! scenario := build-v<1..4>-<absent|present>-<small|big>[-attrs|-extlist|-nolist|-disk]
+//!           | compact-v<1..4>[-pending|-attrs]
+//!           | rebuild-v<1..4>-<absent|present|same>[-verify]      (wow_mpq::rebuild_archive; same: target path == source path)
+//!           | create-v<1..4>-<absent|present>                     (OpenOptions::version(v).create(path): empty archive, then opened)
 //! The file set is a deterministic function of (seed, scenario); seed = --seed or $VERIF_SEED or 1.
 
 use serde_json::json;
@@ -19,7 +25,7 @@ use std::collections::BTreeMap;
 use std::path::{Path, PathBuf};
 use vh_common::{Rng, brief, gen_content, trap};
 use vh_mpq::cfggen::{Cfg, FileSpec, add_files};
-use wow_mpq::{AddFileOptions, Archive, MutableArchive};
+use wow_mpq::{AddFileOptions, Archive, ListfileOption, MutableArchive, OpenOptions, RebuildOptions, rebuild_archive};
 
 const EXIT_OK: i32 = 0;
 const EXIT_USAGE: i32 = 2;
@@ -28,36 +34,77 @@ const EXIT_OP_ERR: i32 = 4;
 const EXIT_OP_PANIC: i32 = 5;
 const EXIT_SETUP_BAD: i32 = 6;
 
+#[derive(Clone, Copy, Debug, PartialEq, Eq)]
+enum Op {
+    Build,
+    Compact,
+    Rebuild,
+    Create,
+}
+
 #[derive(Clone, Debug)]
 struct Scenario {
     name: String,
-    compact: bool,
+    op: Op,
     version: u8,
     present: bool,
     big: bool,
     /// compact with unflushed (content-neutral) modifications pending in the session: a file added and removed again
     pending: bool,
+    /// build: "" | "attrs" (sector CRCs + full attributes file) | "extlist" (ListfileOption::External) | "nolist" | "disk" (files
+    /// registered by path, read during build); compact: "" | "attrs"
+    opt: String,
+    /// rebuild: RebuildOptions.verify
+    verify: bool,
+    /// rebuild: the target path is the source path
+    same: bool,
+}
+
+impl Scenario {
+    fn compact(&self) -> bool {
+        self.op == Op::Compact
+    }
+    fn needs_aux(&self) -> bool {
+        matches!(self.opt.as_str(), "extlist" | "disk") || (self.op == Op::Rebuild && !self.same)
+    }
 }
 
 fn parse_scenario(s: &str) -> Option<Scenario> {
     let p: Vec<&str> = s.split('-').collect();
     let ver = |t: &str| -> Option<u8> { t.strip_prefix('v')?.parse::<u8>().ok().filter(|v| (1..=4).contains(v)) };
+    let state = |t: &str| match t {
+        "absent" => Some(false),
+        "present" => Some(true),
+        _ => None,
+    };
+    let base = Scenario { name: s.to_string(), op: Op::Build, version: 1, present: true, big: false, pending: false, opt: String::new(), verify: false, same: false };
     match p.as_slice() {
-        ["build", v, st, kind] => {
-            let present = match *st {
-                "absent" => false,
-                "present" => true,
-                _ => return None,
-            };
+        ["build", v, st, kind, rest @ ..] => {
             let big = match *kind {
                 "small" => false,
                 "big" => true,
                 _ => return None,
             };
-            Some(Scenario { name: s.to_string(), compact: false, version: ver(v)?, present, big, pending: false })
+            let opt = match rest {
+                [] => "",
+                [o @ ("attrs" | "extlist" | "nolist" | "disk")] => *o,
+                _ => return None,
+            };
+            Some(Scenario { version: ver(v)?, present: state(st)?, big, opt: opt.to_string(), ..base })
         }
-        ["compact", v] => Some(Scenario { name: s.to_string(), compact: true, version: ver(v)?, present: true, big: false, pending: false }),
-        ["compact", v, "pending"] => Some(Scenario { name: s.to_string(), compact: true, version: ver(v)?, present: true, big: false, pending: true }),
+        ["compact", v] => Some(Scenario { op: Op::Compact, version: ver(v)?, ..base }),
+        ["compact", v, "pending"] => Some(Scenario { op: Op::Compact, version: ver(v)?, pending: true, ..base }),
+        ["compact", v, "attrs"] => Some(Scenario { op: Op::Compact, version: ver(v)?, opt: "attrs".into(), ..base }),
+        ["rebuild", v, st, rest @ ..] => {
+            let verify = match rest {
+                [] => false,
+                ["verify"] => true,
+                _ => return None,
+            };
+            let same = *st == "same";
+            Some(Scenario { op: Op::Rebuild, version: ver(v)?, present: if same { true } else { state(st)? }, verify, same, ..base })
+        }
+        ["create", v, st] => Some(Scenario { op: Op::Create, version: ver(v)?, present: state(st)?, ..base }),
         _ => None,
     }
 }
@@ -97,10 +144,15 @@ struct Plan {
 fn plan(sc: &Scenario, seed: u64, variant: &str) -> Plan {
     // content depends on (seed, compact?, size class) only, so the same new archive is expected in the
     // dest-absent and dest-present variant of a build scenario
-    let key = if sc.compact { "compact".to_string() } else { format!("build-{}", if sc.big { "big" } else { "small" }) };
+    let key = match sc.op {
+        Op::Compact => "compact".to_string(),
+        Op::Rebuild => "rebuild".to_string(),
+        Op::Create => "create".to_string(),
+        Op::Build => format!("build-{}", if sc.big { "big" } else { "small" }),
+    };
     let mut rng = Rng::for_case(seed, lane(&key), sc.version as u64);
     let methods = [0x02u8, 0x00, 0x10];
-    let cfg = Cfg {
+    let mut cfg = Cfg {
         version: sc.version,
         shift: if sc.big { 0 } else { 3 },
         method: *rng.pick(&methods),
@@ -110,9 +162,18 @@ fn plan(sc: &Scenario, seed: u64, variant: &str) -> Plan {
         listfile: true,
         tblcomp: sc.version >= 3 && rng.bool(),
     };
+    match sc.opt.as_str() {
+        // sector checksums and an (attributes) file with CRC32 + MD5 + timestamps: one more pass and one more member at the end of the build
+        "attrs" => {
+            cfg.crc = true;
+            cfg.attr = 2;
+        }
+        "nolist" => cfg.listfile = false,
+        _ => {}
+    }
     let mut orng = Rng::for_case(seed, lane("old"), sc.version as u64);
     let old_cfg = Cfg { version: sc.version, shift: 3, method: 0x02, enc: 0, crc: false, attr: 0, listfile: true, tblcomp: false };
-    if sc.compact {
+    if sc.compact() {
         // initial set of 5, then +2 added, 2 of the initial and 1 of the added removed
         // three small members (two of them get removed) and two multi-sector members that stay (sector table, per-sector
         // reads during compaction)
@@ -134,8 +195,24 @@ fn plan(sc: &Scenario, seed: u64, variant: &str) -> Plan {
         }
         let mut expect: Vec<FileSpec> = initial.iter().filter(|f| !removed.contains(&f.name)).cloned().collect();
         expect.extend(added.iter().filter(|f| !removed.contains(&f.name)).cloned());
-        let ccfg = Cfg { version: sc.version, shift: 3, method: 0x02, enc: 0, crc: false, attr: 0, listfile: true, tblcomp: false };
+        let at = sc.opt == "attrs";
+        let ccfg = Cfg { version: sc.version, shift: 3, method: 0x02, enc: 0, crc: at, attr: if at { 2 } else { 0 }, listfile: true, tblcomp: false };
         return Plan { cfg: ccfg.clone(), expect, old_files: initial, old_cfg: ccfg, removed, added };
+    }
+    let osz: Vec<usize> = (0..3).map(|_| 1 + orng.usize(300)).collect();
+    let old_files = gen_files(&mut orng, "o", &osz);
+    if sc.op == Op::Rebuild {
+        // the source archive: four small members and one multi-sector member, listfile present; rebuild_archive reads every member
+        // and writes a complete archive at the target path. `same`: bzip2 in the source, so that the rebuilt archive (zlib) differs
+        let mut sizes: Vec<usize> = (0..5).map(|_| 1 + rng.usize(600)).collect();
+        sizes[3] = 2 * 4096 + 1 + rng.usize(6000);
+        let src = gen_files(&mut rng, "s", &sizes);
+        let scfg = Cfg { version: sc.version, shift: 3, method: if sc.same { 0x10 } else { 0x02 }, enc: 0, crc: false, attr: 0, listfile: true, tblcomp: false };
+        let (old_files, old_cfg) = if sc.same { (src.clone(), scfg.clone()) } else { (old_files, old_cfg) };
+        return Plan { cfg: scfg, expect: src, old_files, old_cfg, removed: vec![], added: vec![] };
+    }
+    if sc.op == Op::Create {
+        return Plan { cfg, expect: vec![], old_files, old_cfg, removed: vec![], added: vec![] };
     }
     let expect = if sc.big {
         let s = cfg.sector_size();
@@ -147,8 +224,6 @@ fn plan(sc: &Scenario, seed: u64, variant: &str) -> Plan {
         }
         gen_files(&mut rng, "n", &sizes)
     };
-    let osz: Vec<usize> = (0..3).map(|_| 1 + orng.usize(300)).collect();
-    let old_files = gen_files(&mut orng, "o", &osz);
     Plan { cfg, expect, old_files, old_cfg, removed: vec![], added: vec![] }
 }
 
@@ -163,6 +238,12 @@ fn marker(which: &str) {
 /// Read-back oracle (same shape as C01's): the archive opens, every expected file is found with the right
 /// size and reads back byte-identical, and list() names every expected file. Returns the list of complaints.
 fn verify(path: &Path, expect: &[FileSpec]) -> Vec<String> {
+    verify_with(path, expect, true, false)
+}
+
+/// `check_list`: list() must name every expected file (off for archives built without a listfile, which cannot name their members);
+/// `no_user_files`: list() must name nothing but the special files (the freshly created empty archive).
+fn verify_with(path: &Path, expect: &[FileSpec], check_list: bool, no_user_files: bool) -> Vec<String> {
     let mut bad = Vec::new();
     let r = trap(|| {
         let mut bad = Vec::new();
@@ -192,9 +273,22 @@ fn verify(path: &Path, expect: &[FileSpec]) -> Vec<String> {
                 Err(e) => bad.push(format!("{}: read error {e}", f.name)),
             }
         }
+        if !check_list {
+            return bad;
+        }
         match ar.list() {
             Ok(entries) => {
                 let got: std::collections::BTreeSet<String> = entries.iter().map(|e| e.name.to_ascii_uppercase().replace('/', "\\")).collect();
+                if no_user_files {
+                    if let Some(e) = entries.iter().find(|e| !matches!(e.name.as_str(), "(listfile)" | "(attributes)" | "(signature)" | "(user data)")) {
+                        bad.push(format!("holds the user file {:?}: not the freshly created empty archive", e.name));
+                    }
+                    for e in &entries {
+                        if let Err(er) = ar.read_file(&e.name) {
+                            bad.push(format!("{}: read error {er}", e.name));
+                        }
+                    }
+                }
                 for f in expect {
                     if !got.contains(&f.name.to_ascii_uppercase()) {
                         bad.push(format!("{}: missing from list()", f.name));
@@ -215,7 +309,7 @@ fn verify(path: &Path, expect: &[FileSpec]) -> Vec<String> {
 fn make_old(sc: &Scenario, pl: &Plan, dest: &Path) -> Result<(), String> {
     let b = add_files(pl.old_cfg.builder(), &pl.old_cfg, &pl.old_files);
     b.build(dest).map_err(|e| format!("initial build failed: {e}"))?;
-    if sc.compact {
+    if sc.compact() {
         let mut m = MutableArchive::open(dest).map_err(|e| format!("MutableArchive::open: {e}"))?;
         for f in &pl.added {
             m.add_file_data(&f.data, &f.name, AddFileOptions::default()).map_err(|e| format!("add_file_data({}): {e}", f.name))?;
@@ -236,6 +330,64 @@ fn make_old(sc: &Scenario, pl: &Plan, dest: &Path) -> Result<(), String> {
         }
     }
     Ok(())
+}
+
+fn verify_scenario(sc: &Scenario, pl: &Plan, path: &Path) -> Vec<String> {
+    verify_with(path, &pl.expect, sc.opt != "nolist", sc.op == Op::Create)
+}
+
+fn aux_src(aux: &Path, i: usize) -> PathBuf {
+    aux.join(format!("src_{i:02}.bin"))
+}
+
+/// Files the operation under test reads: written once per scenario, before any faulted run, never inside the window.
+fn make_aux(sc: &Scenario, pl: &Plan, aux: &Path) -> Result<(), String> {
+    std::fs::create_dir_all(aux).map_err(|e| format!("create {}: {e}", aux.display()))?;
+    if sc.opt == "disk" {
+        for (i, f) in pl.expect.iter().enumerate() {
+            std::fs::write(aux_src(aux, i), &f.data).map_err(|e| format!("write source file {i}: {e}"))?;
+        }
+    }
+    if sc.opt == "extlist" {
+        let mut t = String::new();
+        for f in &pl.expect {
+            t.push_str(&f.name);
+            t.push_str("\r\n");
+        }
+        t.push_str("(listfile)\r\n");
+        std::fs::write(aux.join("extlist.txt"), t).map_err(|e| format!("write external listfile: {e}"))?;
+    }
+    if sc.op == Op::Rebuild && !sc.same {
+        let src = aux.join("source.mpq");
+        add_files(pl.cfg.builder(), &pl.cfg, &pl.expect).build(&src).map_err(|e| format!("source archive build failed: {e}"))?;
+        let bad = verify(&src, &pl.expect);
+        if !bad.is_empty() {
+            return Err(format!("source archive does not read back: {}", bad.join("; ")));
+        }
+    }
+    Ok(())
+}
+
+/// The builder of a build scenario, files registered (in memory, or by path for `disk`: the first through add_file with the
+/// builder's default compression, the others through add_file_with_options / add_file_with_encryption).
+fn scenario_builder(sc: &Scenario, pl: &Plan, aux: &Path) -> wow_mpq::ArchiveBuilder {
+    let mut b = pl.cfg.builder();
+    if sc.opt == "extlist" {
+        b = b.listfile_option(ListfileOption::External(aux.join("extlist.txt")));
+    }
+    if sc.opt != "disk" {
+        return add_files(b, &pl.cfg, &pl.expect);
+    }
+    for (i, f) in pl.expect.iter().enumerate() {
+        let p = aux_src(aux, i);
+        b = match (i, pl.cfg.enc) {
+            (0, 0) => b.add_file(&p, &f.name),
+            (_, 0) => b.add_file_with_options(&p, &f.name, pl.cfg.method, false, 0),
+            (_, 1) => b.add_file_with_options(&p, &f.name, pl.cfg.method, true, 0),
+            _ => b.add_file_with_encryption(&p, &f.name, pl.cfg.method, true, 0),
+        };
+    }
+    b
 }
 
 /// Several builds aimed at one destination at the same time (threads released by a barrier). Whatever each of them reports,
@@ -314,7 +466,7 @@ fn main() {
     while i < argv.len() {
         let k = argv[i].trim_start_matches("--").to_string();
         match k.as_str() {
-            "make-old" | "describe" => {
+            "make-old" | "describe" | "make-aux" => {
                 opt.insert(k, "1".into());
                 i += 1;
             }
@@ -343,14 +495,14 @@ fn main() {
         let fl = |v: &[FileSpec]| v.iter().map(|f| json!({"name": f.name, "class": f.class, "data": brief(&f.data)})).collect::<Vec<_>>();
         println!(
             "{}",
-            json!({"scenario": sc.name, "seed": seed, "dest_present": sc.present, "variant": variant, "op": if sc.compact {"compact"} else {"build"}, "cfg": pl.cfg.to_json(), "expect": fl(&pl.expect),
+            json!({"scenario": sc.name, "seed": seed, "dest_present": sc.present, "variant": variant, "op": format!("{:?}", sc.op).to_lowercase(), "option": sc.opt, "rebuild_verify": sc.verify, "target_is_source": sc.same, "cfg": pl.cfg.to_json(), "expect": fl(&pl.expect),
                    "old_files": fl(&pl.old_files), "removed": pl.removed, "added": fl(&pl.added)})
         );
         std::process::exit(EXIT_OK);
     }
 
     if let Some(a) = opt.get("verify") {
-        let bad = verify(Path::new(a), &pl.expect);
+        let bad = verify_scenario(&sc, &pl, Path::new(a));
         if bad.is_empty() {
             println!("VERIFY-OK files={}", pl.expect.len());
             std::process::exit(EXIT_OK);
@@ -359,6 +511,22 @@ fn main() {
         std::process::exit(EXIT_VERIFY_BAD);
     }
 
+    let aux = opt.get("aux").map(PathBuf::from);
+    if opt.contains_key("make-aux") {
+        let Some(aux) = aux else {
+            eprintln!("--aux required");
+            std::process::exit(EXIT_USAGE);
+        };
+        match trap(|| make_aux(&sc, &pl, &aux)) {
+            Ok(Ok(())) => {
+                println!("SETUP-OK aux");
+                std::process::exit(EXIT_OK);
+            }
+            Ok(Err(e)) => println!("SETUP-BAD {}", one_line(&e)),
+            Err(p) => println!("SETUP-BAD panic: {}", one_line(&p.msg)),
+        }
+        std::process::exit(EXIT_SETUP_BAD);
+    }
     let Some(dest) = opt.get("dest").map(PathBuf::from) else {
         eprintln!("--dest required");
         std::process::exit(EXIT_USAGE);
@@ -383,7 +551,28 @@ fn main() {
 
     // ---- the operation under test, bracketed by the two marker syscalls
     let code;
-    if sc.compact {
+    let aux = match (sc.needs_aux(), aux) {
+        (true, None) => {
+            println!("SETUP-BAD scenario {} needs --aux <dir>", sc.name);
+            std::process::exit(EXIT_SETUP_BAD);
+        }
+        (_, a) => a.unwrap_or_default(),
+    };
+    if sc.op == Op::Rebuild {
+        let src = if sc.same { dest.clone() } else { aux.join("source.mpq") };
+        let mut o = RebuildOptions::default();
+        o.verify = sc.verify;
+        marker("begin");
+        let r = trap(|| rebuild_archive(&src, &dest, o, None));
+        marker("end");
+        code = report(r.map(|x| x.map(|_| ()).map_err(|e| e.to_string())));
+    } else if sc.op == Op::Create {
+        let o = OpenOptions::new().version(pl.cfg.fmt_version());
+        marker("begin");
+        let r = trap(|| o.create(&dest).map(drop));
+        marker("end");
+        code = report(r.map(|x| x.map_err(|e| e.to_string())));
+    } else if sc.compact() {
         let mut m = match MutableArchive::open(&dest) {
             Ok(m) => m,
             Err(e) => {
@@ -407,7 +596,7 @@ fn main() {
         code = report(r.map(|x| x.map_err(|e| e.to_string())));
         drop(m);
     } else {
-        let b = add_files(pl.cfg.builder(), &pl.cfg, &pl.expect);
+        let b = scenario_builder(&sc, &pl, &aux);
         marker("begin");
         let r = trap(|| b.build(&dest));
         marker("end");
